@@ -61,6 +61,7 @@ CHECKS["C20"] = {
         {"part": "history-crash", "pkg": KSP, "test": "TestVerif_C20_History", "quick": 3000, "thorough": 20000},
         {"part": "reset-faults", "pkg": KSP, "test": "TestVerif_C20_ResetFaults", "quick": 300, "thorough": 4000},
         {"part": "reset-interleave", "pkg": KSP, "test": "TestVerif_C20_ResetInterleave", "quick": 1200, "thorough": 8000},
+        {"part": "cancelled-ops", "pkg": KSP, "test": "TestVerif_C20_CancelledOps", "quick": 2000, "thorough": 20000},
     ],
 }
 
